@@ -373,6 +373,7 @@ type explorer struct {
 	modPrefix string
 	maxSteps  int64
 	hangViol  bool
+	pools     map[*value][]value // sync.Pool contents (stubs.go)
 	maxConc   int
 
 	// ghost state (reset per path)
@@ -413,6 +414,7 @@ func (e *explorer) resetPath(prefix []Dec) {
 	e.newFuncs, e.newStubs = nil, nil
 	e.locks = map[*value]*lockState{}
 	e.ghost = map[string]value{}
+	e.pools = map[*value][]value{}
 	e.sol.reset()
 }
 
